@@ -7,7 +7,8 @@ request  `(gmove stat dynPre (kind a arg) implOutcome)` with kind ∈ move|cross
 outcome  `(ok ret dynPost left)`  (ret: -1 = None, 0 = False, 1 = True; left: value left in the
          action dict) or `(err kind)`;
 reply    `(modelOutcome (c12 c03) (c12 c03))` — specs on the model's and on the implementation's
-         outcome (1/0, -1 when absent/unparsable).
+         outcome (1/0, -1 when absent/unparsable); the specs are `specMoveAny` / `specC03MoveAny`, which are
+         `specC12` / `specC03Move` for an active mover and say "nothing changes" for a mover that is not active.
 -/
 namespace Abmarl
 namespace GridDriver
@@ -46,10 +47,10 @@ def handle (args : List Val) : Option Val := do
     let w ← world? stat dyn
     let c ← call? call
     let m := runMoveCall w c
-    let ms : Val := .list [b2v (specC12 w c m), b2v (specC03Move w m), b2v w.WInv]
+    let ms : Val := .list [b2v (specMoveAny w c m), b2v (specC03MoveAny w c m), b2v w.WInv]
     let is : Val :=
       match out? stat impl with
-      | some io => .list [b2v (specC12 w c io), b2v (specC03Move w io)]
+      | some io => .list [b2v (specMoveAny w c io), b2v (specC03MoveAny w c io)]
       | none => .list [.int (-1), .int (-1)]
     pure (.list [encOut m, ms, is])
   | _ => none
